@@ -390,7 +390,7 @@ def run(ctx):
     maxlen = 40
     cases = list(CORPUS)
     cfgs = [(ch, cap, nd, md) for ch in (True, False) for cap in (-1, 1, 2, 4) for nd in (1, 2, 3) for md in (False,)]
-    cfgs += [(True, -1, 2, True), (True, 2, 1, True)]
+    cfgs += [(True, -1, 2, True), (True, 2, 1, True), (True, 1, 2, True), (True, 1, 3, True)]
     for i in range(nhist):
         cfg = cfgs[i % len(cfgs)] if i < 4 * len(cfgs) else rng.choice(cfgs)
         cases.append((cfg, gen_history(rng, cfg, maxlen)))
